@@ -7,6 +7,7 @@ a semantics-preserving rewrite of the syntax tree (node positions are kept, so r
   K1 comparisons   not (a is b) -> a is not b ; not (a is not b) -> a is b ; not (a in b) -> a not in b ; ...
   K2 branches      `if not C: X else: Y` -> `if C: Y else: X` (a real else, no elif chain, no walrus in C);
                    `X if not C else Y` -> `Y if C else X`
+  K6 cond. assign  `if C: x = A else: x = B` -> `x = A if C else B`
   K3 temp return   `t = E` immediately followed by `return t`, t used nowhere else  ->  `return E`
   K4 local names   consistent renaming of function-local names back to the names they have in the reference table
                    (sa/local_names.json: for every function the sequence of its bindings, each described WITHOUT
@@ -57,6 +58,13 @@ class _Shape(ast.NodeTransformer):
         if isinstance(t, ast.UnaryOp) and isinstance(t.op, ast.Not) and node.orelse \
                 and not (len(node.orelse) == 1 and isinstance(node.orelse[0], ast.If)) and not _has_walrus(t):
             node.test, node.body, node.orelse = t.operand, node.orelse, node.body
+        # K6: `if C: x = A else: x = B`  ->  `x = A if C else B`
+        if len(node.body) == 1 and len(node.orelse) == 1 and all(
+                isinstance(b, ast.Assign) and len(b.targets) == 1 and isinstance(b.targets[0], ast.Name) for b in (node.body[0], node.orelse[0])) \
+                and node.body[0].targets[0].id == node.orelse[0].targets[0].id and not _has_walrus(node.test):
+            name = node.body[0].targets[0].id
+            val = ast.copy_location(ast.IfExp(test=node.test, body=node.body[0].value, orelse=node.orelse[0].value), node)
+            return ast.copy_location(ast.Assign(targets=[ast.Name(id=name, ctx=ast.Store())], value=val, lineno=node.lineno), node)
         return node
 
     def visit_IfExp(self, node: ast.IfExp):
